@@ -77,7 +77,11 @@ def gen_cases(rng, tier):
                               "sb": b_["states"][0]["name"], "use_pv": rng.random() < 0.5})
             if a["T"]["kind"] == "free" or b_["t0"]["kind"] == "free":
                 couplings.append({"cid": 950 + k, "from": k, "to": k + 1, "time": True})
-        cases.append({"mode": mode, "stages": stages, "couplings": couplings, "pp": ocpgen.rnd(rng, 0.3, 2.0),
+        late = rng.random() < 0.25
+        if late:
+            # the last stage is added after a first transcription, with nothing else declared afterwards
+            couplings = [c for c in couplings if c["to"] != nst - 1 and c["from"] != nst - 1]
+        cases.append({"mode": mode, "stages": stages, "couplings": couplings, "pp": ocpgen.rnd(rng, 0.3, 2.0), "late": late,
                       "template_h": template_h if mode == "clone" else None,
                       "seed": rng.getrandbits(32), "solve": rng.random() < 0.3})
     return cases
@@ -126,8 +130,33 @@ def build_multistage(case):
     builts = []
     tmpl = None
     tmpl_snap = None
+    late = bool(case.get("late"))
+
+    def finish_parent():
+        for c in case["couplings"]:
+            a, b_ = builts[c["from"]], builts[c["to"]]
+            if c.get("time"):
+                ocp.subject_to(a.stage.tf == b_.stage.t0, meta=build.meta_for(c["cid"]))
+            else:
+                xa = a.syms[c["sa"]]
+                xb = b_.syms[c["sb"]]
+                xa = xa[0] if xa.numel() > 1 else xa
+                xb = xb[0] if xb.numel() > 1 else xb
+                rhs = b_.stage.at_t0(xb) + (pv if c["use_pv"] else 0)
+                ocp.subject_to(a.stage.at_tf(xa) == rhs, meta=build.meta_for(c["cid"]))
+        ocp.add_objective(pp * pv ** 2 + 0.3 * pv)
+        ocp.solver("ipopt", {"ipopt.max_iter": 0, "ipopt.print_level": 0, "print_time": False,
+                             "ipopt.hessian_approximation": "limited-memory"})
+
+    def before_last(k):
+        if late and k == len(stages) - 1:
+            finish_parent()
+            C.call("transcribe(before the last stage)", lambda: ocp._transcribed)
+            res["counters"]["late"] = 1
+
     if mode == "direct":
-        for sp in stages:
+        for k, sp in enumerate(stages):
+            before_last(k)
             kw = {}
             for key in ("t0", "T"):
                 a = build.horizon_arg(sp[key])
@@ -153,7 +182,8 @@ def build_multistage(case):
         C.call("declare(template)", declare_stage_content, tb)
         tmpl_snap = template_snapshot(tmpl)
         res["counters"]["clone_templates"] += 1
-        for sp in stages:
+        for k, sp in enumerate(stages):
+            before_last(k)
             kw = {}
             for key in ("t0", "T"):
                 if sp[key].get("override"):
@@ -168,20 +198,8 @@ def build_multistage(case):
                     C.call("set_value(clone)", st.set_value, b.syms[p_["name"]], build.param_value(p_))
             builts.append(b)
     # couplings and parent objective
-    for c in case["couplings"]:
-        a, b_ = builts[c["from"]], builts[c["to"]]
-        if c.get("time"):
-            ocp.subject_to(a.stage.tf == b_.stage.t0, meta=build.meta_for(c["cid"]))
-        else:
-            xa = a.syms[c["sa"]]
-            xb = b_.syms[c["sb"]]
-            xa = xa[0] if xa.numel() > 1 else xa
-            xb = xb[0] if xb.numel() > 1 else xb
-            rhs = b_.stage.at_t0(xb) + (pv if c["use_pv"] else 0)
-            ocp.subject_to(a.stage.at_tf(xa) == rhs, meta=build.meta_for(c["cid"]))
-    ocp.add_objective(pp * pv ** 2 + 0.3 * pv)
-    ocp.solver("ipopt", {"ipopt.max_iter": 0, "ipopt.print_level": 0, "print_time": False,
-                         "ipopt.hessian_approximation": "limited-memory"})
+    if not late:
+        finish_parent()
     return ocp, pv, pp, builts, tmpl, tmpl_snap, res["counters"]["clone_templates"]
 
 
@@ -202,6 +220,8 @@ def run_case(case):
     try:
         ocp, pv, pp, builts, tmpl, tmpl_snap, nt = build_multistage(case)
         res["counters"]["clone_templates"] += nt
+        if case.get("late"):
+            res["counters"]["stage_added_after_transcription"] = 1
         view = C.call("transcribe", nlp.NlpView, ocp)
         rbs = [C.call("sample(stage)", coords.ReadBack, b, view, engine.want_grids(b.spec), b.stage) for b in builts]
         Fpv = ca.Function("pv", [view.x, view.p], [ocp.value(pv)])
